@@ -648,3 +648,41 @@ func VC_C07_retained_method_handle() {
 	verifAssert(vSvcA == nil, "C07.retained-handle.reset-restores")
 	verifReached("C07.retained-handle")
 }
+
+// VC_C07_returns_then_condition: an interface-method stub started with As(f).Returns(...)
+// and continued with a condition on the caller's argument (When(c).Return(r)): the
+// condition is matched against the caller's arguments (the context is not an argument),
+// other calls get the sequence.
+func VC_C07_returns_then_condition() {
+	vEnv()
+	stub.VerifResetMmap()
+	vSvcA = nil
+	t := reflect.TypeOf(&vSvcA).Elem()
+	b := Create()
+	r0, r1, r2, c := verifInt("r0"), verifInt("r1"), verifInt("r2"), verifInt("c")
+	panicked := false
+	func() {
+		defer func() {
+			if r := recover(); r != nil {
+				panicked = true
+			}
+		}()
+		b.Interface(&vSvcA).Method("Alpha").As(vCbAlpha).Returns(r0, r1).When(c).Return(r2)
+	}()
+	verifAssert(!panicked, "C07.returns-then-condition.accepted")
+	verifAssert(vSvcA != nil, "C07.returns-then-condition.variable-holds-the-mock")
+	if vSvcA != nil && !panicked {
+		f, recv, notImpl := vDispatch(unsafe.Pointer(&vSvcA), vSlotOf(t, "Alpha"), "C07.returns-then-condition")
+		verifAssert(!notImpl && f != nil, "C07.returns-then-condition.method-mocked")
+		if !notImpl && f != nil {
+			got, p := vCall07(f, recv, c)
+			verifAssert(!p && got == r2, "C07.returns-then-condition.condition-on-the-callers-argument")
+			g1, p1 := vCall07(f, recv, c+1)
+			g2, p2 := vCall07(f, recv, c+1)
+			verifAssert(!p1 && !p2 && g1 == r0 && g2 == r1, "C07.returns-then-condition.other-calls-get-the-sequence")
+		}
+	}
+	b.Reset()
+	verifAssert(vSvcA == nil, "C07.returns-then-condition.reset-restores")
+	verifReached("C07.returns-then-condition")
+}
